@@ -4,7 +4,7 @@
    OpenMEEG/include/commandline.h and the shape of the tools' main functions (coq/Geom/Cli.v).
    A command line is a list of tokens (byte lists), argv[0] included; statements hold for ALL command lines. *)
 From Coq Require Import List Arith ZArith Bool String.
-From OM Require Import Geom.Cli Geom.CliProofs Gen.GenCli Geom.CliTool Geom.CliStrings Geom.GainAssoc.
+From OM Require Import Geom.Cli Geom.CliProofs Gen.GenCli Geom.CliTool Geom.CliStrings Geom.CliConv Geom.GainAssoc.
 Import ListNotations.
 
 (* ---- parameters are read where they were given ---- *)
@@ -32,6 +32,21 @@ Theorem c20_documented_parameters_all_read : forall t b argv i k,
   1 <= k <= num_args argv i -> In (k, i + k) (block_reads b i (num_args argv i)).
 Proof. exact documented_parameters_all_read. Qed.
 Print Assumptions c20_documented_parameters_all_read.
+
+(* documented order = order read.  [b_doc] is the list of parameters the tool's help text prints for the option, in that
+   order, each classified from its wording; [u_kind] is what the code does with opt_parms[k], classified from the TYPE it
+   is handed to (Geometry constructor argument 0/1, Matrix, SymMatrix, SparseMatrix, Sensors, Mesh, save, a string).
+   On a line with all documented parameters and on a line with the mandatory ones only, the k-th parameter goes where the
+   k-th documented parameter says.  (Two parameters of the same kind, e.g. two Matrix files, are told apart only by the
+   differential runs.) *)
+Theorem c20_documented_order_read : forall t b argv i u,
+  In t gen_tools -> In b (t_blocks t) -> block_option argv b = Ret (Some i) ->
+  (num_args argv i = List.length (doc_full b) \/ num_args argv i = List.length (doc_mand b)) ->
+  In u (b_uses b) -> guard_holds (u_guard u) (num_args argv i) = true -> 1 <= u_k u ->
+  exists d, nth_error (if num_args argv i =? List.length (doc_full b) then doc_full b else doc_mand b) (u_k u - 1) = Some d
+            /\ compat d (u_kind u) = true.
+Proof. exact documented_order_read. Qed.
+Print Assumptions c20_documented_order_read.
 
 (* no tool, on no command line, reads argv[argc] or beyond *)
 Theorem c20_no_read_outside_argv : forall t argv, In t gen_tools -> r_final (run_tool t argv) <> FCrash.
@@ -126,7 +141,7 @@ Theorem c20_unknown_option_rejected : forall t argv,
 Proof. exact unknown_option_rejected. Qed.
 Print Assumptions c20_unknown_option_rejected.
 
-(* "rejected lines write nothing": holds when at most one option of the tool is on the line ... *)
+(* "rejected lines write nothing": for any table, when at most one option of the tool is on the line ... *)
 Theorem c20_rejected_runs_nothing_partial : forall t argv c,
   pre_exit t argv = None -> t_blocks t <> [] ->
   (forall j j' b b', nth_error (t_blocks t) j = Some b -> nth_error (t_blocks t) j' = Some b' ->
@@ -135,30 +150,34 @@ Theorem c20_rejected_runs_nothing_partial : forall t argv c,
 Proof. exact rejected_runs_nothing. Qed.
 Print Assumptions c20_rejected_runs_nothing_partial.
 
-(* ... and fails in general: the blocks run in source order, so the first option has already done its work
-   (and written its output) when the second one is rejected.  Replayed on the executable by the check. *)
-Definition conflicting_witness : list tok :=
-  cmdline ["om_assemble"; "-HM"; "g"; "c"; "o1"; "-DSM"; "g"; "c"; "d"; "o2"]%string.
-Theorem c20_rejected_runs_nothing_refuted :
-  exists t argv, In t gen_tools /\ r_final (run_tool t argv) = FExit 1%Z /\ r_execs (run_tool t argv) <> [].
-Proof.
-  exists tool_om_assemble, conflicting_witness. split; [vm_compute; tauto|]. split; [vm_compute; reflexivity|].
-  vm_compute. discriminate.
-Qed.
-Print Assumptions c20_rejected_runs_nothing_refuted.
+(* ... and, since the options are counted before any block runs (repaired tree), for EVERY command line whose program
+   name does not start with '-': a line rejected by the argument handling has started no work.
+   (pinned tree: refuted by -HM g c o1 -DSM g c d o2, which wrote o1 before exit 1) *)
+Theorem c20_rejected_runs_nothing : forall t argv c,
+  In t gen_tools -> is_dash (hd [] argv) = false ->
+  r_final (run_tool t argv) = FExit c -> r_execs (run_tool t argv) = [].
+Proof. exact rejected_runs_nothing_full. Qed.
+Print Assumptions c20_rejected_runs_nothing.
 
-(* the typed-option tools never look for unknown options: a stray option is silently ignored (refutes
-   "unknown option => non-zero status" for them).  Replayed on the executable by the check. *)
-Definition stray_witness : list tok := cmdline ["om_check_geom"; "-g"; "m.geom"; "-q"]%string.
-Theorem c20_unknown_option_rejected_typed_refuted :
-  exists t argv, In t gen_tools /\ In (s2t "-q") argv /\
-                 (forall d, In d (t_decls t) -> d_name d <> s2t "-q") /\ r_final (run_tool t argv) = FDone.
-Proof.
-  exists tool_om_check_geom, stray_witness. split; [vm_compute; tauto|]. split; [vm_compute; tauto|].
-  split; [|vm_compute; reflexivity].
-  intros d Hd E. vm_compute in Hd. repeat (destruct Hd as [<-|Hd]; [discriminate E|]). contradiction.
-Qed.
-Print Assumptions c20_unknown_option_rejected_typed_refuted.
+Example c20_ex_conflict_rejected_before_work :
+  let r := run_tool tool_om_assemble (cmdline ["om_assemble"; "-HM"; "g"; "c"; "o1"; "-DSM"; "g"; "c"; "d"; "o2"]%string) in
+  r_final r = FExit 1%Z /\ r_execs r = [].
+Proof. vm_compute. split; reflexivity. Qed.
+
+(* the typed-option tools reject every argument they did not recognise (repaired tree; pinned tree: refuted by
+   om_check_geom -g m.geom -q).  [marked] = argv[0], first -h/--help, first occurrence of each declared option and
+   the value it takes. *)
+Theorem c20_unknown_argument_rejected : forall t argv i,
+  In t gen_tools -> has_unknown_check t = true -> help_mode argv = false ->
+  1 <= i < List.length argv -> marked t argv i = false ->
+  exists c, c <> 0%Z /\ r_final (run_tool t argv) = FExit c /\ r_execs (run_tool t argv) = [].
+Proof. exact unknown_argument_rejected. Qed.
+Print Assumptions c20_unknown_argument_rejected.
+
+Example c20_ex_typed_tools_check_unknown :
+  map has_unknown_check [tool_om_matrix_convert; tool_om_check_geom; tool_om_mesh_convert; tool_om_mesh_concat] = [true; true; true; true]
+  /\ r_final (run_tool tool_om_check_geom (cmdline ["om_check_geom"; "-g"; "m.geom"; "-q"]%string)) = FExit 1%Z.
+Proof. vm_compute. split; reflexivity. Qed.
 
 (* ---- documented behaviour of the parameter list ---- *)
 (* a value starting with '-' ends the parameter list: negative numbers cannot be passed as option parameters *)
@@ -173,17 +192,43 @@ Theorem c20_all_parameters_counted : forall pre o args,
 Proof. exact num_args_all. Qed.
 Print Assumptions c20_all_parameters_counted.
 
-(* -CM ... out 0.1 -0.2 : seven parameters were meant (alpha, beta), six are seen: 0.1 is taken as gamma *)
+(* -CM ... out 0.1 -0.2 : seven parameters were meant (alpha, beta), six would be seen (0.1 taken as gamma); since the
+   options are counted first, the negative value counts as a second option and the line is rejected before any work *)
 Example c20_cm_negative_beta :
-  map e_nargs (r_execs (run_tool tool_om_assemble
-     (cmdline ["om_assemble"; "-CM"; "g"; "c"; "s"; "dom"; "out"; "0.1"; "-0.2"]%string))) = [6].
-Proof. vm_compute. reflexivity. Qed.
+  let r := run_tool tool_om_assemble (cmdline ["om_assemble"; "-CM"; "g"; "c"; "s"; "dom"; "out"; "0.1"; "-0.2"]%string) in
+  r_final r = FExit 1%Z /\ r_execs r = [] /\
+  num_args (cmdline ["om_assemble"; "-CM"; "g"; "c"; "s"; "dom"; "out"; "0.1"; "-0.2"]%string) 1 = 6.
+Proof. vm_compute. repeat split; reflexivity. Qed.
 
 (* typed options (-i file, -tx value, ...) take the token after the first occurrence of the name, whatever it is *)
 Theorem c20_typed_reads_next_token : forall pre name v post,
   ~ In name pre -> typed_lookup (pre ++ name :: v :: post) name = VAt (S (List.length pre)) v.
 Proof. exact typed_reads_next_token. Qed.
 Print Assumptions c20_typed_reads_next_token.
+
+(* ... except that a string option (file or format name) never takes a token starting with '-' (repaired tree;
+   pinned tree: om_matrix_convert -i m -o -of ascii wrote a file named -of) *)
+Theorem c20_string_option_skips_option : forall pre name v post dflt,
+  ~ In name pre -> is_dash v = true -> string_value (pre ++ name :: v :: post) name dflt = dflt.
+Proof. exact string_value_skips_option. Qed.
+Print Assumptions c20_string_option_skips_option.
+
+Example c20_ex_missing_value_rejected :
+  r_final (run_tool tool_om_matrix_convert (cmdline ["om_matrix_convert"; "-i"; "m.bin"; "-o"; "-of"; "ascii"]%string)) = FExit 1%Z.
+Proof. vm_compute. reflexivity. Qed.
+
+(* om_matrix_convert: for every command line, the file names and formats the generated table feeds into the conversion
+   are the documented ones: -i / -o name the files, -if forces the input format (else the reader identifies the content),
+   -of forces the output format (else the suffix of the OUTPUT name selects it; table from the maths IO classes) *)
+Theorem c20_matrix_convert_formats : forall argv,
+  conv_plan_of gen_suffix_formats tool_om_matrix_convert argv = Some (conv_plan_spec argv).
+Proof. exact matrix_convert_plan. Qed.
+Print Assumptions c20_matrix_convert_formats.
+
+Example c20_ex_suffix_table :
+  map (fun s => format_of_suffix gen_suffix_formats (s2t s)) ["a.txt"; "b.bin"; "c.mat"; "d.tex"; "e.x.bin"; "noext"; "f.dat"]%string
+  = map s2t ["ascii"; "binary"; "matlab"; "tex"; "binary"; ""; ""]%string.
+Proof. exact suffix_table. Qed.
 
 Theorem c20_typed_name_last : forall pre name, ~ In name pre -> typed_lookup (pre ++ [name]) name = VAtEnd.
 Proof. exact typed_name_last. Qed.
